@@ -4,6 +4,7 @@ import (
 	"fmt"
 	"go/token"
 	"go/types"
+	"sort"
 	"strings"
 
 	"bxhlint/core"
@@ -413,4 +414,112 @@ func (c *Ctx) throughHelpers(pred InstrPred) InstrPred {
 		return has(g, d+1)
 	}
 	return func(in ssa.Instruction) bool { return lifted(in, 0) }
+}
+
+const perBlockResetText = "per-block accumulators start empty in every block: the fields of a transaction executor (SerialExecutor: the interchain delivery map, the list of plain transactions) that its Add* methods grow while a block's transactions are applied are re-created on every path through ApplyTransactions before it returns - also for a block without transactions. What survives is attributed to the next block as well: its delivery set and InterchainMeta repeat the previous block's requests, the cumulative interchain count of the chain meta counts them twice, and a node that restarted in between (empty accumulators) computes other metadata than the nodes that ran through."
+
+// perBlockReset emits the shared rule (C02 R02.7, C09 R09.9, C01 R01.7) under the given id.
+func (c *Ctx) perBlockReset(rule string) {
+	r := c.R
+	n := 0
+	for _, fn := range c.P.ModuleFuncs(true) {
+		if core.PkgOf(fn) != "internal/executor" || fn.Name() != "ApplyTransactions" || fn.Signature.Recv() == nil || len(fn.Blocks) == 0 {
+			continue
+		}
+		recvT := core.RecvTypeName(fn.Params[0].Type())
+		// accumulator fields: grown by other methods of the same receiver type (append stored back / map element updated)
+		acc := map[string]string{}
+		for _, g := range c.P.ModuleFuncs(true) {
+			if g == fn || g.Signature.Recv() == nil || len(g.Blocks) == 0 || core.RecvTypeName(g.Params[0].Type()) != recvT {
+				continue
+			}
+			onRecv := func(v ssa.Value) (string, bool) {
+				_, f, base, ok := core.FieldOf(v)
+				if !ok || core.Strip(base) != ssa.Value(g.Params[0]) {
+					return "", false
+				}
+				return f, true
+			}
+			for _, b := range g.Blocks {
+				for _, in := range b.Instrs {
+					switch x := in.(type) {
+					case *ssa.Store:
+						if f, ok := onRecv(x.Addr); ok {
+							if cl, isCall := core.Strip(x.Val).(*ssa.Call); isCall {
+								if bn, isB := cl.Call.Value.(*ssa.Builtin); isB && bn.Name() == "append" {
+									acc[f] = shortFn(g)
+								}
+							}
+						}
+					case *ssa.MapUpdate:
+						if f, ok := onRecv(x.Map); ok {
+							acc[f] = shortFn(g)
+						}
+					}
+				}
+			}
+		}
+		var fields []string
+		for f := range acc {
+			fields = append(fields, f)
+		}
+		sort.Strings(fields)
+		for _, f := range fields {
+			n++
+			field := f
+			var resetIn func(h *ssa.Function, d int) func(ssa.Instruction) bool
+			mustReset := func(h *ssa.Function, d int) bool {
+				if len(h.Blocks) == 0 {
+					return false
+				}
+				rs := core.Reach([]core.Point{core.EntryOf(h)}, resetIn(h, d), nil)
+				for _, ret := range core.Returns(h) {
+					if rs.Has(ret) {
+						return false
+					}
+				}
+				return true
+			}
+			resetIn = func(h *ssa.Function, d int) func(ssa.Instruction) bool {
+				return func(in ssa.Instruction) bool {
+					if call, isCall := in.(ssa.CallInstruction); isCall && d < 2 {
+						// a helper method of the same object that re-creates the field on all its paths
+						if g := core.StaticCallee(call); g != nil && g != h && g.Signature.Recv() != nil && len(call.Common().Args) > 0 &&
+							core.Strip(call.Common().Args[0]) == ssa.Value(h.Params[0]) && core.RecvTypeName(g.Params[0].Type()) == recvT {
+							return mustReset(g, d+1)
+						}
+						return false
+					}
+					st, ok := in.(*ssa.Store)
+					if !ok {
+						return false
+					}
+					_, ff, base, ok := core.FieldOf(st.Addr)
+					if !ok || ff != field || core.Strip(base) != ssa.Value(h.Params[0]) {
+						return false
+					}
+					switch v := core.Strip(st.Val).(type) {
+					case *ssa.MakeMap, *ssa.MakeSlice:
+						return true
+					case *ssa.Const:
+						return v.Value == nil
+					case *ssa.Slice:
+						// make([]T, 0) of a constant size compiles to a slice of a fresh array
+						_, isAlloc := v.X.(*ssa.Alloc)
+						return isAlloc
+					}
+					return false
+				}
+			}
+			rs := core.Reach([]core.Point{core.EntryOf(fn)}, resetIn(fn, 0), nil)
+			bad := ""
+			for _, ret := range core.Returns(fn) {
+				if rs.Has(ret) {
+					bad = "return at " + c.P.Pos(ret.Pos()) + " is reachable without re-creating " + recvT + "." + field + " (grown by " + acc[field] + "); path (lines): " + rs.Witness(c.P, ret)
+				}
+			}
+			r.Check(bad == "", rule, shortFn(fn)+": "+field+" re-created on every path", c.P.Pos(fn.Pos()), "every return lies behind a store of a fresh container into "+field, bad+": the entries of the previous block are reported again for this block")
+		}
+	}
+	r.Floor(rule, "per-block accumulator fields of transaction executors", n, 2)
 }
